@@ -32,6 +32,23 @@ Theorem C19_exact : forall c sch, no_panic c = true -> forall evs tbl,
 Proof. exact import_exact. Qed.
 Print Assumptions C19_exact.
 
+(* for EVERY column mapping the command line accepts (makeConfig): no hypothesis left. Until /repo
+   validated the mapping, a negative source index or more source than destination columns made
+   csvToSql index out of range in the import goroutine and the process died at the first record;
+   `no_panic` above was the hypothesis that excluded it. *)
+Theorem C19_exact_for_every_accepted_mapping : forall sch dst src c,
+  make_config sch dst src = Some c -> forall evs tbl,
+  snd (import c sch evs tbl) = tbl ++ map (convert c sch) (accepted_records c sch (until_stop evs)) /\
+  map is_ok (fst (import c sch evs tbl)) = map (event_accepted c sch) (until_stop evs) /\
+  ~ In EvPanic (fst (import c sch evs tbl)).
+Proof. exact import_exact_configured. Qed.
+Print Assumptions C19_exact_for_every_accepted_mapping.
+
+Theorem C19_accepted_mapping_cannot_panic : forall sch dst src c,
+  make_config sch dst src = Some c -> no_panic c = true.
+Proof. exact make_config_no_panic. Qed.
+Print Assumptions C19_accepted_mapping_cannot_panic.
+
 (* a bad record (malformed, short, unconvertible, refused by the storage layer) never prevents,
    alters or duplicates the others: removing it from the stream gives the same table *)
 Theorem C19_rejected_leaves_no_trace : forall c sch evs1 bad evs2 tbl,
